@@ -1,6 +1,11 @@
-(* Ops/C14.v — protocol entry points for property C14 (stub until the model is built). *)
-From Coq Require Import List String.
-From PrefVerif Require Import Lib.Val.
+(* Ops/C14.v — protocol entry points for property C14 (Bucklin and fallback voting).
+   instance payload as in Ops/C06.v. *)
+From Coq Require Import List ZArith NArith String.
+From PrefVerif Require Import Lib.Val Model.Scoring Model.Bucklin Ops.C06.
 Import ListNotations.
+Open Scope string_scope.
 
-Definition ops : optable := [].
+Definition ops : optable :=
+  [ ("c14.both", fun v => VL [e_winners (fallback_winner (d_inst v)); e_winners (bucklin_winner (d_inst v))]);
+    ("c14.fallback", fun v => e_winners (fallback_winner (d_inst v)));
+    ("c14.bucklin", fun v => e_winners (bucklin_winner (d_inst v))) ].
